@@ -4,15 +4,12 @@
    the reply bytes (None = handleCall returned an error, nothing is written), the registry,
    and isLoopbackAddr(remoteAddr). *)
 From Coq Require Import List NArith ZArith Bool.
-From Verif Require Import Model.Portmap Corr.Common.
+From Verif Require Import Model.Portmap Corr.Common Corr.C27Bytes.
 Import ListNotations.
 Open Scope N_scope.
 
-(* compact rendering of a byte string in the case files: B len v = the len big-endian bytes of v
-   (one hexadecimal literal per string instead of one numeral per byte: the case files parse 10x faster) *)
-Fixpoint bytes_le (n : nat) (v : N) : list N :=
-  match n with O => [] | S k => N.land v 255 :: bytes_le k (N.shiftr v 8) end.
-Definition B (n v : N) : list N := rev (bytes_le (N.to_nat n) v).
+(* byte strings in the case files are written with Corr/C27Bytes.v: B (X0a (Xff E)) = [10; 255] *)
+Definition B (b : bs) : list N := bytes_of b.
 
 Record obs := { o_reply : option (list N); o_reg : list (N * N * N * N); o_allow : bool }.
 Record case := { c_listen : list N; c_evs : list event; c_obs : list obs }.
